@@ -247,3 +247,111 @@ def make(tier):
     body.append(MAIN % ("\n".join(arms), ", ".join(f"({n}, {m})" for (n, m) in fams)))
     write_if_changed(os.path.join(d, "src", "main.rs"), "\n".join(body))
     return d
+
+
+# ---- the same matrix, small, with the `layout_checks` feature of the library switched on -------
+# (the generator has feature-gated branches in the cast functions; the big cell crate cannot be
+# built that way because pbsupport's own traits would then need StableAbi everywhere)
+
+CARGO_LC = """[package]
+name = "c08lc"
+version = "0.1.0"
+edition = "2021"
+
+[dependencies]
+cglue = {{ path = "{repo}/cglue", features = ["layout_checks"] }}
+abi_stable = "0.10"
+verifkit = {{ path = "{root}/harness/verifkit" }}
+serde = {{ version = "1", features = ["derive"] }}
+serde_json = "1"
+
+[workspace]
+
+[profile.dev]
+opt-level = 0
+debug = 0
+incremental = false
+"""
+
+LC_OPT = [("Oa", "oa_id", 11), ("OB", "ob_id", 13), ("Oc", "oc_id", 17)]
+
+
+def make_lc():
+    d = os.path.join(WORK, "c08lc")
+    os.makedirs(os.path.join(d, "src"), exist_ok=True)
+    write_if_changed(os.path.join(d, "Cargo.toml"), CARGO_LC.format(repo=REPO, root=ROOT))
+    lock = os.path.join(d, "Cargo.lock")
+    if not os.path.exists(lock):
+        open(lock, "w").write(open(os.path.join(ROOT, "harness", "Cargo.lock")).read())
+    n = len(LC_OPT)
+    L = ["#![allow(unused, non_snake_case, clippy::all)]", "pub use cglue::*;", "use cglue::prelude::v1::*;", "use verifkit::{Args, Ctx, Fail, Info, CaseResult};", "",
+         "#[cglue_trait] pub trait M0 { fn m0_id(&self) -> u64; }"]
+    for (t, meth, tid) in LC_OPT:
+        L.append(f"#[cglue_trait] pub trait {t} {{ fn {meth}(&self, v: u32) -> u64; }}")
+    L.append("cglue_trait_group!(GL, M0, { " + ", ".join(t for (t, _, _) in LC_OPT) + " });")
+    L.append("fn mix(a: u64, b: u64) -> u64 { (a ^ b.rotate_left(23)).wrapping_mul(0x9E3779B97F4A7C15) }")
+    for e in range(1 << n):
+        ty = f"S{e}"
+        L.append(f"pub struct {ty}(pub u64);")
+        L.append(f"impl M0 for {ty} {{ fn m0_id(&self) -> u64 {{ mix(self.0, 1) }} }}")
+        en = [x for k, x in enumerate(LC_OPT) if e >> k & 1]
+        for (t, meth, tid) in en:
+            L.append(f"impl {t} for {ty} {{ fn {meth}(&self, v: u32) -> u64 {{ mix(self.0, {tid} + v as u64) }} }}")
+        L.append(f"cglue_impl_group!({ty}, GL, {{ " + ", ".join(t for (t, _, _) in en) + " });")
+    L.append("#[derive(serde::Serialize, serde::Deserialize, Debug, Clone)]")
+    L.append("pub struct Cell { pub enabled: u32, pub req: u32, pub op: u8, pub cont: u8 }")
+
+    def names(r):
+        return [t for k, (t, _, _) in enumerate(LC_OPT) if r >> k & 1]
+
+    # one function per (container): generic over the implementor through a macro
+    L.append("macro_rules! cell_for { ($ty:ident, $c:expr) => {{ let c: &Cell = $c; let id = 0x5000 + c.enabled as u64; let expect = c.req & c.enabled == c.req;")
+    L.append("    let mut owned = $ty(id);")
+    L.append("    match c.cont % 3 { 0 => { let g = group_obj!($ty(id) as GL); ops(g, c, id, expect) } 1 => { let g = group_obj!(&mut owned as GL); ops_mut(g, c, id, expect) } _ => { let g = group_obj!(&owned as GL); ops_ref(g, c, id, expect) } } }} }")
+    for (fname, gty, has_mut) in (("ops", "GLBox<'a>", True), ("ops_mut", "GLMut<'a>", True), ("ops_ref", "GLRef<'a>", False)):
+        L.append(f"fn {fname}<'a>(mut g: {gty}, c: &Cell, id: u64, expect: bool) -> Result<bool, Fail> {{")
+        L.append("    let bad = |what: &str, got: bool| Fail::new(format!(\"C08:{what} (layout_checks)\"), format!(\"{what} for requested set {:#b} on a type with enabled set {:#b} {} (library built with layout_checks)\", c.req, c.enabled, if got { \"succeeded although a requested trait is not enabled\" } else { \"was refused although all requested traits are enabled\" }));")
+        L.append("    if g.m0_id() != mix(id, 1) { return Err(Fail::new(\"C08:dispatch\", \"mandatory trait answers wrongly\".to_string())); }")
+        L.append("    match (c.req, c.op) {")
+        for r in range(1, 1 << n):
+            nm = " + ".join(names(r))
+            chk = "check_impl_" + "_".join(x.lower() for x in sorted(names(r)))
+            calls = " ".join(f"if x.{meth}(7) != mix(id, {tid} + 7) {{ return Err(Fail::new(\"C08:dispatch\", \"{t} after a successful cast answers wrongly\".to_string())); }}" for k, (t, meth, tid) in enumerate(LC_OPT) if r >> k & 1)
+            L.append(f"        ({r}, 0) => {{ let ok = g.{chk}(); if ok != expect {{ return Err(bad(\"check\", ok)); }} }}")
+            L.append(f"        ({r}, 1) => {{ match as_ref!(g impl {nm}) {{ Some(x) => {{ if !expect {{ return Err(bad(\"as_ref\", true)); }} {calls} }} None => {{ if expect {{ return Err(bad(\"as_ref\", false)); }} }} }} }}")
+            if has_mut:
+                L.append(f"        ({r}, 2) => {{ match as_mut!(g impl {nm}) {{ Some(x) => {{ if !expect {{ return Err(bad(\"as_mut\", true)); }} {calls} }} None => {{ if expect {{ return Err(bad(\"as_mut\", false)); }} }} }} }}")
+            L.append(f"        ({r}, 3) => {{ match cast!(g impl {nm}) {{ Some(x) => {{ if !expect {{ return Err(bad(\"cast\", true)); }} {calls} }} None => {{ if expect {{ return Err(bad(\"cast\", false)); }} }} }} return Ok(expect); }}")
+            L.append(f"        ({r}, 4) => {{ match into!(g impl {nm}) {{ Some(x) => {{ if !expect {{ return Err(bad(\"into\", true)); }} {calls} }} None => {{ if expect {{ return Err(bad(\"into\", false)); }} }} }} return Ok(expect); }}")
+        L.append("        _ => {}")
+        L.append("    }")
+        L.append("    if g.m0_id() != mix(id, 1) { return Err(Fail::new(\"C08:dispatch\", \"mandatory trait answers wrongly after the operation\".to_string())); }")
+        L.append("    Ok(expect)")
+        L.append("}")
+    L.append("fn run_cell(c: &Cell) -> CaseResult {")
+    L.append("    let r = match c.enabled {")
+    for e in range(1 << n):
+        L.append(f"        {e} => cell_for!(S{e}, c),")
+    L.append("        _ => Err(Fail::new(\"harness\", \"no such type\".to_string())),")
+    L.append("    };")
+    L.append("    let expect = r?;")
+    L.append("    Ok(Info::new(c.req != c.enabled).class([\"check\", \"as_ref\", \"as_mut\", \"cast\", \"into\"][c.op as usize]).class(if expect { \"succeeds\" } else { \"refused\" }))")
+    L.append("}")
+    L.append("""
+fn main() {
+    verifkit::quiet_panics();
+    let ctx = Ctx::new(Args::parse());
+    if let Some(c) = ctx.replay_for::<Cell>("cells-layout-checks") {
+        ctx.eval("cells-layout-checks", &c, run_cell);
+    } else if !ctx.is_replay() {
+        'all: for enabled in 0..%du32 { for req in 1..%du32 { for op in 0..5u8 { for cont in 0..3u8 {
+            let c = Cell { enabled, req, op, cont };
+            if !ctx.eval("cells-layout-checks", &c, run_cell) { break 'all; }
+        } } } }
+    }
+    let code = ctx.finish("the cast matrix once more with the library's layout_checks feature on (other code paths in the generated cast functions): one mandatory and three optional traits, all 8 enabled sets x all 7 requested sets x {check, as_ref, as_mut, cast, into} x {Box, &mut, &}; success iff requested is a subset of enabled, and after success the requested methods answer for the same instance. Non-trivial = requested != enabled", &[], true);
+    std::process::exit(code);
+}
+""" % (1 << n, 1 << n))
+    write_if_changed(os.path.join(d, "src", "main.rs"), "\n".join(L))
+    return d
